@@ -61,7 +61,11 @@ fn jittered(tr: &mut Vec<i128>, g: impl FnOnce() -> i128, base: impl FnOnce() ->
     }
 }
 
-fn end_to_end(kind: i128, ini: i128, m: f64, has_cap: bool, cap: i128, n: usize, step_ms: u64) -> Vec<i128> {
+/// kinds 8/9: one request through the real layer against an inner service that always fails.
+/// `mx`: kind 8: 0 = unlimited_attempts, v > 0 = max_attempts(v - 1); kind 9: 0 = max_attempts(n + 1),
+/// v > 0 = max_attempts(v). `route`: which public constructor supplies the backoff (see Model/Backoff.v).
+#[allow(clippy::too_many_arguments)]
+fn end_to_end(kind: i128, ini: i128, m: f64, has_cap: bool, cap: i128, n: usize, step_ms: u64, mx: i128, route: i128) -> Vec<i128> {
     let rt = paused_rt();
     rt.block_on(async move {
         let t0 = now_ns();
@@ -72,20 +76,25 @@ fn end_to_end(kind: i128, ini: i128, m: f64, has_cap: bool, cap: i128, n: usize,
             async move { Err::<u32, E>(E) }
         });
         let mut fut: Manual<bool> = if kind == 8 {
-            let cfg = ReconnectConfig::builder()
-                .policy(ReconnectPolicy::exponential(dur(ini), dur(cap)))
-                .unlimited_attempts()
-                .retry_on_reconnect(true)
-                .build();
+            let mut b = ReconnectConfig::builder();
+            if route != 1 {
+                b = b.policy(ReconnectPolicy::exponential(dur(ini), dur(cap)));
+            }
+            b = if mx == 0 { b.unlimited_attempts() } else { b.max_attempts((mx - 1).clamp(0, u32::MAX as i128) as u32) };
+            let cfg = b.retry_on_reconnect(true).build();
             let mut svc = ReconnectLayer::new(cfg).layer(inner);
             futures::future::poll_fn(|cx| svc.poll_ready(cx)).await.ok();
             let c = svc.call(7);
             Manual::new(async move { c.await.is_ok() })
         } else {
-            let layer = RetryLayer::<u32, E>::builder()
-                .max_attempts(n + 1)
-                .backoff(exp_backoff(ini, m, has_cap, cap))
-                .build();
+            let b = RetryLayer::<u32, E>::builder()
+                .max_attempts(if mx == 0 { n + 1 } else { attempt(mx) });
+            let layer = match route {
+                1 => b.exponential_backoff(dur(ini)),
+                2 => b,
+                _ => b.backoff(exp_backoff(ini, m, has_cap, cap)),
+            }
+            .build();
             let mut svc = layer.layer(inner);
             futures::future::poll_fn(|cx| svc.poll_ready(cx)).await.ok();
             let c = svc.call(7);
@@ -167,9 +176,9 @@ fn run(s: &[i128]) -> Vec<i128> {
             }
         }
         8 | 9 => {
-            let n = zn(s, 7).clamp(0, 10_000) as usize;
+            let n = zn(s, 7).clamp(0, 1_000_000) as usize;
             let step_ms = zn(s, 8).clamp(1, 86_400_000) as u64;
-            tr = end_to_end(kind, ini, m, has_cap, cap, n, step_ms);
+            tr = end_to_end(kind, ini, m, has_cap, cap, n, step_ms, zn(s, 9), zn(s, 10));
         }
         _ => {}
     }
